@@ -118,6 +118,7 @@ def units(tier, seed):
                 continue
             for first in HK_OPS:
                 u.append((cfg, dict(part="hist", propagator=prop, orbit=list(orb), form=form, first=first, depth=HK_DEPTH[tier], tier=tier)))
+    u.append((cfg, dict(part="argtypes", tier=tier)))
     return u
 
 
@@ -724,7 +725,65 @@ def check_history(prop, orb, form, ops, t):
     t.outcome(("hist", prop, len(ops), tuple(sorted(set(ops)))))
 
 
+# the same integer-valued cartesian initial state handed to Orbit() as different Python / numpy types
+ARG_STATES = [[7000000, 1200000, -300000, -1000, 5000, 5500], [6800000, -2000000, 1500000, 3000, 9000, -7000]]
+def _arg_class(typ):
+    """input class of an argument type (signature): all-integer / 32-bit items / anything holding a 64-bit float"""
+    return "32-bit-items" if "32" in typ else "all-integer" if "int" in typ and "mixing" not in typ else "float64-or-mixed"
+
+
+ARG_TYPES = {
+    "list-of-float": lambda v: [float(x) for x in v],
+    "list-of-int": lambda v: [int(x) for x in v],
+    "tuple-of-int": lambda v: tuple(int(x) for x in v),
+    "int64-array": lambda v: np.array(v, dtype=np.int64),
+    "float32-array": lambda v: np.array(v, dtype=np.float32),
+    "list-mixing-int-and-float": lambda v: [int(x) if k % 2 else float(x) for k, x in enumerate(v)],
+    "list-of-numpy-int64": lambda v: [np.int64(x) for x in v],
+}
+
+
+def check_argtypes(k, typ, prop, t):
+    """Orbit built from integer-valued components given as type `typ`: propagates like the one built from floats and
+    like the reference."""
+    from beyond.orbits import Orbit
+
+    vals = ARG_STATES[k]
+    case = dict(kind="argtypes", state=k, type=typ, propagator=prop, config={"eop": "pass"})
+    sig = f"{prop}.propagate/initial-state-argument-type/{_arg_class(typ)}"
+    clause = "for every initial state: the numbers given are the initial state, whatever numeric type they come in"
+    t.states_add(1)
+    t.ev(("arg", k, typ, prop))
+    base = Orbit([float(x) for x in vals], _W["date"], "cartesian", "EME2000", prop)
+    Rc = _state_R(base)
+    if Rc in (None, "outside"):
+        raise RuntimeError("ARG_STATES outside the domain")
+    if prop == "J2" and Rc["conic"] == "hyp":
+        t.exclude("J2 secular rates on a hyperbola (averaging over a revolution undefined)")
+        return
+    try:
+        o = Orbit(ARG_TYPES[typ](vals), _W["date"], "cartesian", "EME2000", prop)
+    except Exception as ex:
+        t.fail(sig, clause, case, vals, repr(ex), f"Orbit({typ}) raised {ex!r}")
+        return
+    for dt in (1000.0, -86400.0):
+        out, x = _propagate(o, _td(dt), t, sig, clause, case, f"Orbit({typ}).propagate({dt} s)")
+        if x is None:
+            continue
+        b = np.array(base.propagate(_td(dt)).copy(form="cartesian"), dtype=float)
+        ref = _hk_reference(Rc, prop, dt)
+        d = _rel(x, ref)
+        if not np.array_equal(x, b) or not _margin(t, f"argument types {prop}: vs reference [rel/tol]", d, state_tol(Rc, dt), case):
+            t.fail(sig, clause, case, ref, x, f"Orbit({typ}).propagate({dt} s) is {d:.3e} (rel) from the reference and {'differs from' if not np.array_equal(x, b) else 'equals'} the Orbit built from floats")
+
+
 def run_unit(p, t):
+    if p.get("part") == "argtypes":
+        for k in range(len(ARG_STATES)):
+            for typ in ARG_TYPES:
+                for prop in ("Kepler", "J2"):
+                    check_argtypes(k, typ, prop, t)
+        return
     if p.get("part") == "hist":
         orb = tuple(p["orbit"])
         if p["first"] == HK_OPS[0]:
@@ -761,6 +820,8 @@ def run_unit(p, t):
 
 
 def replay(case, t):
+    if case["kind"] == "argtypes":
+        return check_argtypes(case["state"], case["type"], case["propagator"], t)
     orb = tuple(case["orbit"])
     if case["kind"] == "kepler":
         check_kepler(orb, case["form"], case["frame"], case["dt"], t)
